@@ -182,6 +182,13 @@ pub fn auth_matrix(w: &World, h: &Hist, book: &Book, cfg: &Cfg, r: &mut Rng, st:
         let sz = if a.size >= cfg.inc && r.chance(70) { json!(cfg.inc.to_string()) } else { Value::Null };
         reqs.push(("reject_ask".into(), json!({"reject_ask": {"id": a.id, "size": sz}}), None));
     }
+    // explicit sizes equal to the whole remainder (which need not be a lot multiple)
+    if let Some(a) = ask {
+        reqs.push(("reject_ask".into(), json!({"reject_ask": {"id": a.id, "size": a.size.to_string()}}), None));
+    }
+    if let Some(b) = bid {
+        reqs.push(("reject_bid".into(), json!({"reject_bid": {"id": b.id, "size": (b.rem_base().max(0) as u128).to_string()}}), None));
+    }
     if let Some(a) = asks.iter().find(|a| a.class == AskClass::Pending) {
         reqs.push(("approve_ask".into(), json!({"approve_ask": {"id": a.id, "base": cfg.base, "size": a.size.to_string()}}), Some((cfg.base.clone(), a.size))));
     }
@@ -428,8 +435,12 @@ pub fn query_battery(w: &World, h: &Hist, book: &Book, r: &mut Rng, st: &mut Sta
     }
     // what a query reports is what a cancel returns
     let open: Vec<(&String, bool)> = book.asks.keys().map(|k| (k, true)).chain(book.bids.keys().map(|k| (k, false))).collect();
-    if !open.is_empty() {
-        let (id, is_ask) = open[r.below(open.len() as u64) as usize];
+    let mut picks: Vec<(&String, bool)> = open.clone();
+    while picks.len() > 8 {
+        let i = r.below(picks.len() as u64) as usize;
+        picks.swap_remove(i);
+    }
+    for (id, is_ask) in picks {
         let q = w.query(&json!({if is_ask { "get_ask" } else { "get_bid" }: {"id": id}}));
         if let Ok(v) = q {
             let mut expd = Ledger::new();
